@@ -16,6 +16,7 @@ TNext ==
        [] e.k = "lrecv" -> Recv(e.dir, e.len, e.d)
        [] e.k = "lhold" -> StillIntact(e.d0, e.d) /\ UNCHANGED inflight
        [] e.k = "lerr" -> FALSE      \* a send or receive failed or timed out: the message was not delivered
+       [] e.k = "lmsgbad" -> FALSE   \* the ledger saw a release or a Clone of a message that is not live (Msg.tla RefPositive)
        [] OTHER -> FALSE
 TSpec == TInit /\ [][TNext]_<<l, inflight>>
 TConstraint == Progress(l)
